@@ -359,8 +359,8 @@ func (a *c07AckRep) rep() {
 	a.corr(fmt.Sprintf("c07 rep %s %s 0", a.name, hx.Hex(b)), fmt.Sprintf("ok %d %s", h.ID, hx.Hex(ha[:])))
 	if ha != L.alhs[id] {
 		if L.hdrs[id].BlTxID == 0 && h.BlTxID == 0 && h.BlRoot != ([32]byte{}) {
-			// known: performPrecommit leaves the BlRoot of the pooled Tx in a header with BlTxID = 0 (tx 1 replicated again into
-			// a store that came back empty from a reopen: the pool's first Tx has read a record at Open)
+			// repaired (the signature stays armed): performPrecommit left the BlRoot of the pooled Tx in a header with BlTxID = 0
+			// (tx 1 replicated again into a store that came back empty from a reopen: the pool's first Tx has read a record at Open)
 			a.r.Count("acks.stale-blroot-on-tx1-after-reopen")
 			a.fail("C07:ReplicateTx:stale-blroot-stored-when-bltxid-zero", fmt.Sprintf("acks: tx %d (BlTxID=0, zero BlRoot in the export of L%d) is stored with BlRoot=%x… (left over in the pooled Tx; reopens so far: %d): Alh %x… instead of the primary's %x…", id, a.cur, h.BlRoot[:8], a.opens, ha[:6], L.alhs[id][:6]), nil)
 		} else {
@@ -512,9 +512,7 @@ func (a *c07AckRep) switchPrimary() bool {
 		// more than necessary
 		id = fl + 1 + uint64(a.rng.Intn(int(id-1-fl)+1))
 	}
-	if id < 2 {
-		id = 2 // tx 1 is never discarded (known finding: stale BlRoot of the pooled Tx, exercised by its own probe)
-	}
+	// (id may be 1: since the repair of performPrecommit a tx 1 replicated again, BlTxID = 0, gets the zero BlRoot)
 	if id > a.inmem() && a.rng.Chance(50) {
 		a.op("follow L%d (nothing to discard)", t)
 		a.cur = t
